@@ -506,6 +506,39 @@ fn deep(ctx: &Ctx) {
     }
 }
 
+/// Wide documents: many containers, little depth. The depth limit is about nesting, not about how many containers a
+/// document holds, so sibling containers (empty ones in particular) must not use it up.
+fn wide(ctx: &Ctx) {
+    let mut rng = Lcg(pt::mix(ctx.seed, 1391));
+    const ITEMS: [&str; 9] = ["[]", "{}", "[[]]", "{\"a\":{}}", "[1]", "{\"a\":[]}", "1", "[{},[]]", "\"s\""];
+    for n in [1usize, 10, 200, 255, 256, 257, 300, 1000] {
+        for tail_depth in [0usize, 1, 128, 250, 254, 255] {
+            for variant in 0..ctx.tier.pick(3, 12) {
+                let mut items: Vec<String> = (0..n).map(|k| if variant == 0 { ITEMS[k % 2].to_string() } else { ITEMS[(rng.next() % ITEMS.len() as u64) as usize].to_string() }).collect();
+                if tail_depth > 0 {
+                    // a chain nested to `tail_depth` below the top-level array: total depth tail_depth + 1 <= 256
+                    let obj = variant % 2 == 1;
+                    let (o, c) = if obj { ("{\"k\":", "}") } else { ("[", "]") };
+                    items.push(format!("{}{}{}", o.repeat(tail_depth), if obj { "1" } else { "" }, c.repeat(tail_depth)));
+                }
+                let text = if variant % 3 == 2 {
+                    format!("{{{}}}", items.iter().enumerate().map(|(k, v)| format!("\"k{}\":{}", k, v)).collect::<Vec<_>>().join(","))
+                } else {
+                    format!("[{}]", items.join(","))
+                };
+                ctx.case(hash_of(&text), n >= 200, &[if tail_depth > 0 { "wide+deep-tail" } else { "wide" }]);
+                ctx.sample("wide", || json!({"shape": format!("top-level container with {} sibling containers, then a chain nested to depth {}", n, tail_depth + 1), "reference_accepts": true}));
+                if let Some(f) = check_text_deep(&text) {
+                    if !ctx.tolerate(&f) {
+                        let shown: String = text.chars().take(200).collect();
+                        ctx.violation(Fail { sig: f.sig, detail: format!("{} [wide document: {} sibling containers, tail nested to {}; text starts {}]", f.detail, n, tail_depth + 1, shown) }, "text", json!({"text": text}));
+                    }
+                }
+            }
+        }
+    }
+}
+
 /// run on a big-stack thread: depth tests must not depend on the caller's stack
 fn check_text_deep(s: &str) -> Option<Fail> {
     let s = s.to_string();
@@ -614,6 +647,7 @@ pub fn run(ctx: &Ctx) {
     enumerate_strings(ctx, &TOKENS, 5, "JSON: all token strings of length <=5 over the 16 tokens { } [ ] : , \" \\ 0 1 - . e true null space (1 118 481 strings)");
     enumerate_strings(ctx, &NUMSYMS, 7, "JSON numbers: all strings of length <=7 over {+,-,.,0,1,9,e,E} (2 396 745 strings)");
     deep(ctx);
+    wide(ctx);
     documents(ctx);
     values(ctx);
 }
